@@ -121,6 +121,8 @@ def run(ctx):
                           {"function": "internal/net.(*Metadata).UnmarshalBinary", "input_hex": "ffff" + "00" * 10,
                            "allocated_bytes": misc.get("MetadataHostileCountAllocBytes"), "bound_checked": 65536,
                            "repair": "fixes/C23-metadata-count-presize.diff"})
+        if misc.get("PoolFail"):
+            ctx.violation("FramePool:bad-buffer", "internal/net.FramePool: " + misc["PoolFail"], {"sequence": "see harness: Get/Put of sizes 0..5MiB with misaligned Puts in between"})
         if not misc.get("MetadataHostileCountRejected", False):
             ctx.violation("Metadata.UnmarshalBinary:hostile-count-accepted", "count=65535 in a 12-byte block was accepted", {"input_hex": "ffff" + "00" * 10})
 
@@ -149,13 +151,19 @@ def run(ctx):
                 ";".join("%d%%N" % n for n in (s.get("Frames") or [])), s["End"],
                 ";".join(expect_term(dict(r, Lo=s["Lo"], Hi=s["Hi"])) for r in (s.get("Served") or []))))
         lines.append("Definition alls : list scase := [%s]." % ";".join("s%d" % s["I"] for s in streams))
+        pool_pairs = misc.get("PoolPairs") or []
+        lines.append("Definition pool_bad := filter (fun p => negb (N.eqb (pool_cap (fst p)) (snd p))) [%s]." % ";".join("(%d%%N,%d%%N)" % (a, c) for a, c in pool_pairs))
         lines.append("Definition rc := run_cases names 0%N allc.")
         lines.append("Definition rs := run_streams names 0%N alls.")
+        lines.append("Eval vm_compute in (length pool_bad, firstn 3 pool_bad).")
         lines.append("Eval vm_compute in (length allc, length rc, firstn 4 rc, length alls, length rs, firstn 3 rs).")
         rc2, o2 = ctx.coq_eval("cases_C23", "\n".join(lines) + "\n")
         flat = " ".join(o2.split())
         m = re.search(r"= \((\d+)%nat, (\d+)%nat, (\[.*?\]), (\d+)%nat, (\d+)%nat, (\[.*\])\) :", flat)
-        if rc2 != 0 or not m:
+        mp = re.search(r"= \((\d+)%nat, (\[.*?\])\) : nat \* list", flat)
+        if rc2 == 0 and mp and int(mp.group(1)) != 0:
+            ctx.tie_broken("model-vs-implementation FramePool.Get capacity (pool_cap) differs for %s request sizes" % mp.group(1), mp.group(2)[:400])
+        if rc2 != 0 or not m or not mp:
             ctx.tie_broken("model evaluation (cases_C23.v did not evaluate)", o2[-3000:])
         else:
             mism_cases, mism_streams = int(m.group(2)), int(m.group(5))
